@@ -363,7 +363,10 @@ example : toPoint (Fp2.map dec twistB : Fp2 (ZMod Bn256.p))
 /-- **GT, kyber level** (over every commutative ring): `Add` is the multiplication of gfP12, `Mul` the power by the
 scalar — for every exponent, and equal to the power by the exponent reduced modulo any n with qⁿ = 1 —, `Neg` the
 conjugation, `Sub` a · conj(b); `Neg` is the inverse exactly on the elements of norm one (a · conj a is the
-gfP6 norm) -/
+gfP6 norm). Round 5: the hypothesis `hn` and the norm-one condition are DISCHARGED in Props/C10GT.lean
+(`gt_generator_order`, `kyber_pair_unitary`, `kyber_gt_group`: the unitary elements form a group whose operations are
+these functions) and Props/C10Frob.lean (`kyber_pair_order`: every value of Pair has order dividing r); the
+non-trivial instances (the pairing of the generators) are there -/
 theorem kyber_gt_laws {R : Type} [CommRing R] (a b q : Fp12 R) (s n : Nat) (hn : q ^ n = 1) :
     pointGT_add a b = a * b ∧ pointGT_mul s q = q ^ s ∧ pointGT_mul s q = pointGT_mul (s % n) q ∧
     pointGT_neg a = Fp12.conjugate a ∧ pointGT_sub a b = a * Fp12.conjugate b ∧
